@@ -123,6 +123,8 @@ type SchedCfg struct {
 	Focus        []string `json:"focus"`         // site prefixes (relpath or relpath:line)
 	FocusDensity float64  `json:"focus_density"` // probability that a focus site is enabled
 	MaxSteps     int64    `json:"max_steps"`     // cap on scheduler decisions (0 = default)
+	StallProb    float64  `json:"stall_prob,omitempty"` // per decision: leave everything parked and let time reach the next timer
+	MaxStall     time.Duration `json:"max_stall,omitempty"`
 }
 
 // World owns scheduling, the event queue and the history.
@@ -152,6 +154,9 @@ type World struct {
 	Switches  map[string]int // "siteA>siteB" pairs of consecutive releases (interleaving measure)
 	lastSite  string
 	StepCapHit bool
+	Stalls     int64
+	StalledFor time.Duration
+	stalled    bool
 	TraceOn    bool
 	Trace      []string
 	mutexWaiters int32
@@ -331,6 +336,34 @@ func (w *World) Run(until time.Duration) {
 		synctest.Wait()
 		w.inDriver.Store(true)
 		w.mu.Lock()
+		if len(w.parked) > 0 && w.Cfg.StallProb > 0 && !w.stalled && w.rng.Float() < w.Cfg.StallProb {
+			// stall (slow node): leave everything parked and let virtual time reach the next timer,
+			// so that a timer can fire while another goroutine is half-way through an operation.
+			now := w.Now()
+			d := w.Cfg.MaxStall
+			if d <= 0 {
+				d = time.Second
+			}
+			if len(w.q) > 0 && w.q[0].at > now && w.q[0].at-now < d {
+				d = w.q[0].at - now
+			}
+			if len(w.q) == 0 || w.q[0].at > now {
+				w.Stalls++
+				w.stalled = true
+				w.mu.Unlock()
+				tm := time.NewTimer(d)
+				w.inDriver.Store(false)
+				select {
+				case <-w.wake:
+				case <-tm.C:
+				}
+				w.inDriver.Store(true)
+				tm.Stop()
+				w.StalledFor += w.Now() - now
+				continue
+			}
+		}
+		w.stalled = false
 		if len(w.parked) > 0 {
 			if w.Steps >= w.Cfg.MaxSteps {
 				w.StepCapHit = true
@@ -728,7 +761,14 @@ func jitter(kind string) time.Duration {
 		return 0
 	}
 	n := w.Counter("tj:" + kind)
-	return time.Duration(w.Keyed("tj", kind, n) * 900) // < 1us
+	return time.Duration(int64(w.Keyed("tj", kind, n)*450) * 2) // even, < 1us
+}
+
+// HarnessJitter returns an odd number of nanoseconds in [1, 999]: harness timers (op release,
+// actor gaps) never tie with code timers (even jitter) that start from the same instant. The Go
+// runtime wakes goroutines whose timers expire at the same instant in an order nobody controls.
+func (w *World) HarnessJitter(parts ...any) time.Duration {
+	return time.Duration(int64(w.Keyed(append([]any{"hj"}, parts...)...)*499)*2 + 1)
 }
 
 // MaxJitter bounds what the seams add to any single timer.
